@@ -8,6 +8,7 @@ def run(ctx):
     D.ord5_flush_order(ctx)
     D.flw3_storage_errors_not_dropped(ctx)
     D.flw5_replay_delete_split(ctx)
+    D.ord10_cursor_before_snapshot(ctx)
     D.who1_who_may_remove(ctx)
     D.who2_who_may_write(ctx, R.WHO2_TABLE)
     R.flw6_recovery_ignores_staging(ctx)
